@@ -279,6 +279,71 @@ def build_harness(name, profile="release", cfg=True):
 
 
 # ---------------------------------------------------------------------------
+# source fingerprints (escalation only, DESIGN.md 4.4)
+# ---------------------------------------------------------------------------
+PHYS = "physics/src/"
+WATCH = {
+    "C01": ["detector/src"],
+    "C02": ["detector/src/alpha16.rs"],
+    "C03": ["detector/src/padwing.rs"],
+    "C04": ["detector/src/padwing.rs"],
+    "C05": ["detector/src/padwing.rs"],
+    "C06": ["detector/src/trigger.rs"],
+    "C07": ["detector/src/chronobox.rs"],
+    "C08": ["detector/src/midas.rs", "detector/src/alpha16.rs", "detector/src/alpha16/aw_map.rs", "detector/src/padwing.rs",
+            "detector/src/padwing/map.rs", "detector/src/chronobox.rs", PHYS + "matching.rs"],
+    "C09": [PHYS + "lib.rs", PHYS + "calibration", PHYS + "matching.rs", PHYS + "deconvolution.rs", PHYS + "deconvolution",
+            PHYS + "drift.rs", PHYS + "reconstruction.rs", PHYS + "reconstruction"],
+    "C10": [PHYS + "lib.rs", PHYS + "calibration", "physics/data/calibration"],
+    "C11": [PHYS + "lib.rs", PHYS + "calibration", PHYS + "matching.rs", PHYS + "reconstruction/track_finding.rs"],
+    "C13": [PHYS + "lib.rs", PHYS + "matching.rs", PHYS + "deconvolution/wires.rs"],
+    "C14": [PHYS + "reconstruction.rs", PHYS + "reconstruction"],
+    "C15": [PHYS + "reconstruction.rs", PHYS + "reconstruction/track_finding.rs", PHYS + "reconstruction/vertex_fitting.rs"],
+    "C16": [PHYS + "reconstruction.rs"],
+    "C17": [PHYS + "deconvolution.rs", PHYS + "deconvolution", "physics/data/simulation/tpc_response"],
+    "C18": [PHYS + "drift.rs", PHYS + "lib.rs", "physics/data/simulation/drift_table"],
+    "C19": ["analysis/src/lib.rs", "analysis/src/bin/alpha-g-vertices", "analysis/src/bin/alpha-g-trg-scalers"],
+    "C20": ["analysis/src/lib.rs", "analysis/src/bin/alpha-g-chronobox-timestamps", "detector/src/chronobox.rs"],
+}
+# thorough-volume generation of these takes too long to be an automatic reaction to a source change
+NO_ESCALATION = {"C17"}
+
+
+def source_fingerprint(pid):
+    """sha256 over the comment- and whitespace-insensitive text of the non-test sources a property is anchored in"""
+    import gen
+    h = hashlib.sha256()
+    files = []
+    for d in WATCH[pid]:
+        p = os.path.join(REPO, d)
+        if os.path.isdir(p):
+            for dp, dns, fs in os.walk(p):
+                files += [os.path.join(dp, f) for f in fs]
+        else:
+            files.append(p)
+    for p in sorted(set(files)):
+        rel = os.path.relpath(p, REPO)
+        f = os.path.basename(p)
+        if f == "tests.rs" or "/tests/" in rel or not os.path.exists(p):
+            continue
+        if f.endswith(".rs"):
+            txt = " ".join(gen.strip_comments(open(p, errors="replace").read()).split())
+            h.update(rel.encode() + b"\0" + txt.encode() + b"\0")
+        elif f.endswith((".json", ".ron")):
+            h.update(rel.encode() + b"\0" + open(p, "rb").read() + b"\0")
+    return h.hexdigest()
+
+
+def fingerprint_changed(pid):
+    """(changed?, current) against tools/fingerprints.json, which records the sources the committed models were
+    written against; a difference is NOT a violation: it only makes the quick tier generate at thorough volume"""
+    cur = source_fingerprint(pid)
+    p = os.path.join(ROOT, "tools", "fingerprints.json")
+    known = json.load(open(p)) if os.path.exists(p) else {}
+    return known.get(pid) != cur, cur
+
+
+# ---------------------------------------------------------------------------
 # evidence / findings
 # ---------------------------------------------------------------------------
 def load_findings():
